@@ -98,10 +98,14 @@ def ignore_entries(s):
 
 
 def excluded(s, path):
-    """the ignore SPEC (component boundaries), independent of Goit's regexps"""
+    """the ignore SPEC (component boundaries), independent of Goit's regexps.
+    True / False, or None where the property text does not say (a DIRECTORY whose
+    name matches a '*.ext' or plain-name entry: Git hides what is beneath it, the
+    property only speaks about files with that extension)"""
     comps = path.split(b"/")
     if comps[0] == b".goit" and len(comps) > 1:
         return True
+    dontcare = False
     for e in ignore_entries(s):
         if e.endswith(b"/"):
             want = e[:-1].split(b"/")
@@ -112,16 +116,22 @@ def excluded(s, path):
         elif e.startswith(b"*."):
             if comps[-1].endswith(e[1:]):
                 return True
+            if any(c.endswith(e[1:]) for c in comps[:-1]):
+                dontcare = True
         else:
             if comps[-1] == e or path == e:
                 return True
-    return False
+            if e in comps[:-1]:
+                dontcare = True
+    return None if dontcare else False
 
 
 # ---------------------------------------------------------------- C01
 def o_c01(recs):
     bad = []
     for i, r in enumerate(recs):
+        if not r.before.inited:
+            continue
         st = r.step
         if st.kind != "cmd":
             continue
@@ -158,6 +168,8 @@ def o_c01(recs):
 def o_c02(recs):
     bad = []
     for i, r in enumerate(recs):
+        if not r.before.inited:
+            continue
         st = r.step
         if st.kind != "cmd" or st.name != "commit" or r.res.cls != "ok":
             continue
@@ -207,6 +219,8 @@ def o_c02(recs):
 def o_c03(recs):
     bad = []
     for i, r in enumerate(recs):
+        if not r.before.inited:
+            continue
         if r.step.kind != "cmd":
             continue
         if fsck(r.before):
@@ -223,7 +237,7 @@ def o_c03(recs):
 
 # ---------------------------------------------------------------- C04
 def expected_add(b, args):
-    """None = must be refused; else the expected staging area"""
+    """None = must be refused; else the expected staging area ('?' marks don't-care paths)"""
     st = dict(staged(b))
     for a in args:
         if a == b".":
@@ -231,23 +245,33 @@ def expected_add(b, args):
         if a not in b.files and a not in b.dirs and a not in st:
             return None
     for a in args:
-        if a != b"." and excluded(b, a + (b"/x" if a in b.dirs else b"")) and (a in b.dirs or excluded(b, a)):
-            continue
         if a in b.files:
-            if not excluded(b, a):
+            ex = excluded(b, a)
+            if ex is None:
+                st[a] = "?"
+            elif not ex:
                 st[a] = githash(b.files[a])
         elif a == b"." or a in b.dirs:
             for f in b.files:
-                if under(a, f) and not excluded(b, f):
-                    st[f] = githash(b.files[f])
+                if under(a, f):
+                    ex = excluded(b, f)
+                    if ex is None:
+                        st[f] = "?"
+                    elif not ex:
+                        st[f] = githash(b.files[f])
         else:
-            st.pop(a, None)
+            if excluded(b, a) is False:
+                st.pop(a, None)
+            else:
+                st[a] = "?"
     return st
 
 
 def o_c04(recs):
     bad = []
     for i, r in enumerate(recs):
+        if not r.before.inited:
+            continue
         st = r.step
         if st.kind != "cmd" or st.name not in ("add", "rm"):
             continue
@@ -267,8 +291,8 @@ def o_c04(recs):
                 bad.append((i, "valid add failed: %r" % r.res.err[-120:]))
                 continue
             got = staged(a)
-            if got != exp:
-                diff = [p for p in set(got) | set(exp) if got.get(p) != exp.get(p)]
+            diff = [p for p in set(got) | set(exp) if got.get(p) != exp.get(p) and exp.get(p) != "?"]
+            if diff:
                 bad.append((i, "staging area after add differs at %r" % sorted(diff)[:4]))
             if a.files != b.files or a.dirs != b.dirs:
                 bad.append((i, "add touched the work tree"))
@@ -314,6 +338,8 @@ def o_c05(recs):
     bad = []
     made = {}          # commit id -> staged entries when it was made
     for i, r in enumerate(recs):
+        if not r.before.inited:
+            continue
         st = r.step
         if st.kind != "cmd":
             continue
@@ -355,6 +381,8 @@ def o_c05(recs):
 def o_c06(recs):
     bad = []
     for i, r in enumerate(recs):
+        if not r.before.inited:
+            continue
         if r.step.kind != "cmd" or r.after.index_raw is None:
             continue
         if r.after.index_raw == r.before.index_raw:
@@ -390,6 +418,8 @@ def diff_spec(idx, head):
 def o_c07(recs):
     bad = []
     for i, r in enumerate(recs):
+        if not r.before.inited:
+            continue
         st = r.step
         if st.kind != "cmd":
             continue
@@ -432,6 +462,8 @@ def last_reflog_ids(recs, i):
 def o_c08(recs):
     bad = []
     for i, r in enumerate(recs):
+        if not r.before.inited:
+            continue
         st = r.step
         if st.kind != "cmd" or st.name != "reset":
             continue
@@ -511,6 +543,8 @@ def wt_blocks(s, tid):
 def o_c09(recs):
     bad = []
     for i, r in enumerate(recs):
+        if not r.before.inited:
+            continue
         st = r.step
         if st.kind != "cmd" or st.name not in ("restore", "restore-staged"):
             continue
@@ -601,6 +635,8 @@ def name_ok(n):
 def o_c10(recs):
     bad = []
     for i, r in enumerate(recs):
+        if not r.before.inited:
+            continue
         st = r.step
         if st.kind != "cmd":
             continue
@@ -689,6 +725,8 @@ def o_c11(recs):
     bad = []
     last = None            # (hlog bytes at that time, parsed reflog)
     for i, r in enumerate(recs):
+        if not r.before.inited:
+            continue
         st = r.step
         if st.kind != "cmd":
             continue
@@ -745,6 +783,8 @@ def o_c11(recs):
 def o_c12(recs):
     bad = []
     for i, r in enumerate(recs):
+        if not r.before.inited:
+            continue
         st = r.step
         if st.kind != "cmd" or st.name != "commit":
             continue
@@ -778,6 +818,8 @@ def o_c12(recs):
 def o_c13(recs):
     bad = []
     for i, r in enumerate(recs):
+        if not r.before.inited:
+            continue
         st = r.step
         if st.kind != "cmd" or st.name != "status" or r.res.cls != "ok":
             continue
@@ -793,9 +835,15 @@ def o_c13(recs):
                     want.append(b"modified " + p)
             else:
                 want.append(b"deleted " + p)
+        dc = set()
         for p in b.files:
-            if p not in idx and not excluded(b, p):
-                want.append(b"untracked " + p)
+            if p not in idx:
+                ex = excluded(b, p)
+                if ex is None:
+                    dc.add(b"untracked " + p)
+                elif not ex:
+                    want.append(b"untracked " + p)
+        got = [l for l in got if l not in dc]
         if got != sorted(want):
             gs, ws = set(got), set(want)
             bad.append((i, "status: unexpected %r, missing %r" % (sorted(gs - ws)[:4], sorted(ws - gs)[:4])))
@@ -806,6 +854,8 @@ def o_c13(recs):
 def o_c14(recs):
     bad = []
     for i, r in enumerate(recs):
+        if not r.before.inited:
+            continue
         st = r.step
         if st.kind != "cmd" or st.name != "log":
             continue
@@ -835,6 +885,8 @@ def o_c14(recs):
 def o_c17(recs):
     bad = []
     for i, r in enumerate(recs):
+        if not r.before.inited:
+            continue
         st = r.step
         if st.kind != "cmd":
             continue
@@ -842,14 +894,14 @@ def o_c17(recs):
         if st.name == "add" and r.res.cls == "ok":
             old = staged(b) or {}
             for p, oid in (staged(a) or {}).items():
-                if old.get(p) != oid and excluded(b, p):
+                if old.get(p) != oid and excluded(b, p) is True:
                     bad.append((i, "add staged the excluded path %r" % p))
                     break
         if st.name == "status" and r.res.cls == "ok":
             for l in parse_status(r.res.out):
                 if l.startswith(b"untracked "):
                     p = l[len(b"untracked "):]
-                    if excluded(b, p):
+                    if excluded(b, p) is True:
                         bad.append((i, "status lists the excluded path %r" % p))
                         break
             if not ignore_entries(b):
@@ -870,6 +922,8 @@ def o_c17(recs):
 def o_c18(recs):
     bad = []
     for i, r in enumerate(recs):
+        if not r.before.inited:
+            continue
         st = r.step
         if st.kind != "cmd":
             continue
@@ -885,6 +939,8 @@ def o_c18(recs):
 def o_c20(recs):
     bad = []
     for i, r in enumerate(recs):
+        if not r.before.inited:
+            continue
         st = r.step
         if st.kind != "cmd":
             continue
